@@ -140,7 +140,7 @@ theorem namesTexts_plain (n : Nat) (names : Option (List PyStr)) :
 
 /-- `visualize_graph`: the returned string, read back, is a well-formed `svg` document that contains exactly the
     node shapes, edge paths and names the specification expects. -/
-theorem visualizeGraph_docMeets (ν : Nums) (a : GraphArgs) (d : Drawing) (hν : SafeNums ν)
+theorem visualizeGraph_docMeets (ν : Nums) (a : GraphArgs) (d : Drawing) (hν : SafeNums ν) (hsort : SortOk ν)
     (hnc : SafeStr a.nodeColor) (hec : ∀ c, a.edgeColor = some c → SafeStr c) (hlc : SafeLabelColors a.labelColors)
     (hp : ProbsOk a.probs) (hnn : NonNeg a.entries)
     (hnd : truthy a.width = true ∨ truthy a.height = true) (hs : a.lay.scale ≠ 0)
@@ -170,7 +170,7 @@ theorem visualizeGraph_docMeets (ν : Nums) (a : GraphArgs) (d : Drawing) (hν :
   obtain ⟨he1, he2⟩ := graphEdgeParts_inner hν a pos hec hlc hedges
   have hI : Inner (edges.2 ++ (nodes ++ text)) :=
     Inner.append he2 (Inner.append (graphNodes_inner hν _ _ _ hcs hnodes) (namesText_inner hν _ _ _ _ htext))
-  have hS := Shape.append (graphEdgeParts_shape hnn hedges)
+  have hS := Shape.append (graphEdgeParts_shape hsort hnn hedges)
     (Shape.append (graphNodes_shape hp hnodes) (namesText_shape htext))
   have hdoc := docMeets_svgDoc hν false true edges.1 he1 hI hS
   have hcount := graphEdgeCount_eq hpos hnd hs hidx (fun hde => residual_bounds hedges hde)
@@ -228,8 +228,8 @@ theorem biresidEdges_shape (ν : Nums) (residual : List (Nat × Nat × PyStr)) :
 def bigraphEdgeCount (a : BigraphArgs) : Nat :=
   if a.displayEdges then (bigraphEs a).length + (residPairs (bigraphEs a) a.edgeLabels).length else 0
 
-theorem bigraphEdges_shape {ν : Nums} {a : BigraphArgs} {ps : List Piece} (hnn : NonNeg a.entries)
-    (h : bigraphEdges ν a = .ok ps) : Shape ps ⟨0, 0, bigraphEdgeCount a, []⟩ := by
+theorem bigraphEdges_shape {ν : Nums} {a : BigraphArgs} {ps : List Piece} (hsort : SortOk ν)
+    (hnn : NonNeg a.entries) (h : bigraphEdges ν a = .ok ps) : Shape ps ⟨0, 0, bigraphEdgeCount a, []⟩ := by
   unfold bigraphEdges at h
   unfold bigraphEdgeCount
   split at h
@@ -248,7 +248,7 @@ theorem bigraphEdges_shape {ν : Nums} {a : BigraphArgs} {ps : List Piece} (hnn 
     have hpos : ((bigraphEs a).filter fun e => e.2.2 > 0) = bigraphEs a := pos_filter_of_nonneg _ hnn
     rw [hpos] at hdata
     have h1 := bistoredEdges_shape hstored
-    rw [hord, (argsort_perm data).length_eq, List.length_range, hdata] at h1
+    rw [hord, (hsort data).length_eq, List.length_range, hdata] at h1
     have h2 := biresidEdges_shape ν ec.residual
     have hl : ec.residual.length = (residPairs (bigraphEs a) a.edgeLabels).length := by
       rw [← hres, List.length_map]
@@ -261,7 +261,7 @@ theorem bigraphEdges_shape {ν : Nums} {a : BigraphArgs} {ps : List Piece} (hnn 
 
 /-- `visualize_bigraph`: the returned string, read back, is a well-formed `svg` document that contains exactly the
     node shapes, edge paths and names the specification expects. -/
-theorem visualizeBigraph_docMeets (ν : Nums) (a : BigraphArgs) (d : Drawing) (hν : SafeNums ν)
+theorem visualizeBigraph_docMeets (ν : Nums) (a : BigraphArgs) (d : Drawing) (hν : SafeNums ν) (hsort : SortOk ν)
     (hcr : SafeStr a.colorRow) (hcc : SafeStr a.colorCol) (hec : ∀ c, a.edgeColor = some c → SafeStr c)
     (hlc : SafeLabelColors a.labelColors) (hpr : ProbsOk a.probsRow) (hpc : ProbsOk a.probsCol)
     (hnn : NonNeg a.entries) (h : visualizeBigraph ν a = .ok d) :
@@ -300,7 +300,7 @@ theorem visualizeBigraph_docMeets (ν : Nums) (a : BigraphArgs) (d : Drawing) (h
     Inner.append (bigraphEdges_inner hν a hec hlc hedges)
       (Inner.append (nodeLoop_inner hν _ _ _ h1 hnr) (Inner.append (nodeLoop_inner hν _ _ _ h2 hnc)
         (Inner.append (namesText_inner hν _ _ _ _ htr) (namesText_inner hν _ _ _ _ htc))))
-  have hS := Shape.append (bigraphEdges_shape hnn hedges)
+  have hS := Shape.append (bigraphEdges_shape hsort hnn hedges)
     (Shape.append (nodeLoop_shape hpr hnr) (Shape.append (nodeLoop_shape hpc hnc)
       (Shape.append (namesText_shape htr) (namesText_shape htc))))
   have hdoc := docMeets_svgDoc hν true true [] (fun _ hc => by simp at hc) hI hS
